@@ -460,6 +460,61 @@ fn options_sequence_part(run: &mut Run, n: usize) {
     }
 }
 
+/// The result depends on the text, the extensions and the converter only, so every way of asking for
+/// the same parse gives the same result: the parser method, the method with default options, the
+/// event stream handed to the analysis pass by hand, a parser made by the named constructors, and the
+/// free function `cooklang::parse` (all extensions, bundled units).
+fn entry_points_part(run: &mut Run, n: usize) {
+    use cooklang::analysis::parse_events;
+    use cooklang::parser::PullParser;
+    use cooklang::ParseOptions;
+    let b = batch(run.seed ^ 0xe9, n);
+    let mut st = Stats::default();
+    let mut fail = None;
+    'outer: for c in &b {
+        let src = c.input();
+        let p = parser(c.ext, c.conv);
+        let Ok(base) = guard(|| crate::c02::result_image(&p.parse(&src))) else { continue };
+        let mut others: Vec<(&str, String)> = vec![];
+        let r = guard(|| {
+            let mut v = vec![
+                ("parse_with_options(default options)", crate::c02::result_image(&p.parse_with_options(&src, ParseOptions::default()))),
+                ("analysis::parse_events over a PullParser", crate::c02::result_image(&parse_events(PullParser::new(&src, ALL_EXTS[c.ext]), &src, ALL_EXTS[c.ext], converter(c.conv), ParseOptions::default()))),
+            ];
+            if c.ext == EXT_ALL && c.conv == 1 {
+                v.push(("cooklang::parse", crate::c02::result_image(&cooklang::parse(&src))));
+                v.push(("CooklangParser::extended()", crate::c02::result_image(&CooklangParser::extended().parse(&src))));
+                v.push(("CooklangParser::default()", crate::c02::result_image(&CooklangParser::default().parse(&src))));
+            }
+            if c.ext == EXT_EMPTY && c.conv == 0 {
+                v.push(("CooklangParser::canonical()", crate::c02::result_image(&CooklangParser::canonical().parse(&src))));
+            }
+            v
+        });
+        match r {
+            Ok(v) => others = v,
+            Err(e) => others.push(("another entry point", format!("panic:{e}"))),
+        }
+        st.class_if(c.ext == EXT_ALL && c.conv == 1, "all extensions + bundled units (free function and named constructors compared)");
+        for (what, img) in &others {
+            st.eval();
+            if *img != base {
+                fail = Some((
+                    Violation::new("c18.entry-points-differ", format!("CooklangParser::parse and {what} give different results for the same text, extensions and converter\n parse {}\n other {}\n input {src:?}", truncate(&base, 1200), truncate(img, 1200))),
+                    serde_json::to_value(c).unwrap(),
+                ));
+                break 'outer;
+            }
+        }
+        st.nontrivial(&(src, c.ext, c.conv));
+    }
+    st.sample(|| b[0].describe());
+    run.add_part("entry-points", "every input of a batch parsed through CooklangParser::parse, parse_with_options with default options, analysis::parse_events over a hand-made PullParser and, for the matching configurations, cooklang::parse / CooklangParser::extended() / default() / canonical(): all images (output JSON + ordered diagnostics) must be equal; distinct = distinct (input, configuration)", st, false);
+    if let Some((v, case)) = fail {
+        run.fail("entry-points", v, case);
+    }
+}
+
 fn processes_part(run: &mut Run, n: usize) {
     let mut st = Stats::default();
     let exe = std::env::current_exe().expect("current exe");
@@ -539,6 +594,9 @@ pub fn run(tier: Tier) -> i32 {
         options_sequence_part(&mut run, tier.pick(1500, 60000) as usize);
     }
     if !run.failed() {
+        entry_points_part(&mut run, tier.pick(1500, 60000) as usize);
+    }
+    if !run.failed() {
         fresh_race_part(&mut run, tier.pick(300, 6000) as usize, 8);
     }
     if !run.failed() {
@@ -551,6 +609,23 @@ pub fn replay(part: &str, j: &serde_json::Value) -> Verdict {
     match part {
         "histories" => check_history(&case_from(j)?, &mut Stats::default()),
         "processes" => Err(Violation::new("c18.process-result-differs", "re-run ./check C18 quick with the recorded VERIF_SEED")),
+        "entry-points" => {
+            let c: InputCase = case_from(j)?;
+            let src = c.input();
+            let p = parser(c.ext, c.conv);
+            let a = crate::c02::result_image(&p.parse(&src));
+            let b = crate::c02::result_image(&cooklang::analysis::parse_events(cooklang::parser::PullParser::new(&src, ALL_EXTS[c.ext]), &src, ALL_EXTS[c.ext], converter(c.conv), cooklang::ParseOptions::default()));
+            let d = crate::c02::result_image(&p.parse_with_options(&src, cooklang::ParseOptions::default()));
+            let mut ok = a == b && a == d;
+            if c.ext == EXT_ALL && c.conv == 1 {
+                ok &= a == crate::c02::result_image(&cooklang::parse(&src)) && a == crate::c02::result_image(&CooklangParser::extended().parse(&src));
+            }
+            if c.ext == EXT_EMPTY && c.conv == 0 {
+                ok &= a == crate::c02::result_image(&CooklangParser::canonical().parse(&src));
+            }
+            vensure!(ok, "c18.entry-points-differ", "entry points give different results for {src:?}");
+            Ok(())
+        }
         "options-sequence" => {
             let c: InputCase = case_from(j)?;
             let src = c.input();
